@@ -718,7 +718,7 @@ public:
   static T sumExp(const std::vector<T>& v1)
   {
     if (v1.size() == 0)
-      return std::exp(v1[0]);
+      return 0;
 
     T M = max(v1);
     if (std::isinf(M))
